@@ -39,6 +39,9 @@ STRUCTS = {
                           ["u2", ["v2"]], ["u4", ["v4"]]]},
     # two constraints over the same pair, own cost tables on both variables
     "pair_dbl_vcost2": {"vars": {"x": 2, "y": 2}, "cons": [["c0", ["x", "y"]], ["c1", ["x", "y"]]], "varcosts": ["x", "y"]},
+    "ring7": {"vars": {"v%d" % i: 2 for i in range(7)}, "cons": [["c%d" % i, ["v%d" % i, "v%d" % ((i + 1) % 7)]] for i in range(7)]},
+    # unary constraint on the variable that becomes the root of the pseudo-tree (highest degree) and has children
+    "chain3_umid": {"vars": {"x": 2, "y": 2, "z": 2}, "cons": [["c0", ["x", "y"]], ["c1", ["y", "z"]], ["u", ["y"]]]},
     "pair_vcost2": {"vars": {"x": 2, "y": 2}, "cons": [["c0", ["x", "y"]]], "varcosts": ["x", "y"]},
     # scopes listed descendant-first / in reverse lexical order (dimension order differs from the tree order)
     "chain3_rev":  {"vars": {"x": 2, "y": 2, "z": 2}, "cons": [["c0", ["y", "x"]], ["c1", ["z", "y"]]]},
